@@ -1513,7 +1513,7 @@ def detect_wc_close(src_dir):
 
 
 # the signature of the modelled methods on the tree the model was written against (see shape_signature;
-# /repo at 8bcf05e, i.e. with the repairs of F17 and of both halves of F18); the instructions of Model/ChanFault.v
+# /repo at 64d926d, i.e. with the repairs of F17, of both halves of F18 and of F22); the instructions of Model/ChanFault.v
 # transliterate exactly these statements
 EXPECTED_SHAPE = {'channel.py:HTTPChannel.__init__': ['w:outbufs', 'w:sendbuf_len call:getsockopt()', 'n:map call:__init__()', 'w:connected const:True', 'w:requests'],
  'channel.py:HTTPChannel._flush_exception': ['if(){',
@@ -1681,7 +1681,7 @@ EXPECTED_SHAPE = {'channel.py:HTTPChannel.__init__': ['w:outbufs', 'w:sendbuf_le
                                     '}else{',
                                     '}',
                                     'try{',
-                                    'if(r:connected){',
+                                    'if(bool:And r:connected not r:will_close){',
                                     'call:service()',
                                     '}else{',
                                     'w:close_on_finish const:True',
